@@ -9,7 +9,7 @@ THOROUGH_ROUNDS = 2
 RULE = ("real binary `new --vanity-prefix P`: (a) single-threaded (-j 0) under the getentropy shim with an explicit entropy stream, compared with the Lean model of the "
         "search (first candidate of the stream whose selected account matches): all 16 single digits in both cases, 2-digit prefixes in lower/upper/mixed case, "
         "with/without vanity password / account index / hd path, lengths 12/15/24; random prefixes of 3..7 and 39..41 digits over 40/60-entry streams (no entry matches: the command must fail), prefixes of 1..9, 39, 40 digits cut from the address of a chosen stream entry (that entry must be printed); every success is judged against the statement (cli.new_vanity judge); (b) multi-threaded (-j 1,2,16 and default) with real entropy, prefixes of 1..3 digits, repeated "
-        "to vary interleavings: the printed phrase must parse, have L words, and `address` with the same selector must start with the prefix (case-insensitive); "
+        "to vary interleavings, plus 3-digit prefixes with 0, 1 and 2 workers (each worker passes a thousand and more candidates; thorough: a 4-digit prefix with the default worker count): standard output must be one line holding the phrase, the printed phrase must parse, have L words, and `address` with the same selector must start with the prefix (case-insensitive); "
         "non-hex / malformed prefixes must be refused; non-trivial = distinct (prefix, selector, threads, run); the schedule quantifier is only sampled on the real binary")
 EXHAUSTIVE_SWEEPS = {"quick": ["all 16 hex digits x {lower, upper} as 1-digit prefixes (model-compared)", "every printable ASCII character x 5 positions of the prefix text (acceptance only)"], "thorough": ["all 16 hex digits x {lower, upper} as 1-digit prefixes (model-compared)"]}
 ASSUMPTIONS = ["thread interleavings of the real process are sampled, not enumerated; the model's search is the sequential one"]
@@ -125,6 +125,16 @@ def extra_checks(cases, impl, model, verdicts, tier, rng, cov):
             vs, as_ = sels[(i + r) % len(sels)]
             L = [12, 15, 18, 21, 24][(i + r) % 5]
             jobs.append((p, t, vs, as_, L))
+    # long searches: a 3-digit prefix takes ~4096 candidates, so with 0..2 workers each worker goes through a thousand and more
+    # non-matching candidates before the answer is printed — whatever the search does "every so often" (progress output,
+    # re-seeding, counters that wrap) happens here and not in the 1- and 2-digit searches above; a 4-digit prefix with the
+    # default worker count does the same per worker in the thorough tier
+    hexd = "0123456789abcdefABCDEF"
+    for i, t in enumerate([0, 1, 2] + ([0, 1, 3] if tier == "thorough" else [])):
+        vs, as_ = sels[(i + 1) % len(sels)]
+        jobs.append(("0x" + "".join(rng.choice(hexd) for _ in range(3)), t, vs, as_, [12, 24, 18, 15, 21, 12][i]))
+    if tier == "thorough":
+        jobs.append(("0x" + "".join(rng.choice(hexd) for _ in range(4)), None, [], [], 12))
 
     def run(job):
         p, t, vs, as_, L = job
@@ -132,7 +142,11 @@ def extra_checks(cases, impl, model, verdicts, tier, rng, cov):
         kind, out, err, _ = core.cli_exec(argv, timeout=600)
         if kind != "ok":
             return job, "search failed: " + kind, None
-        phrase = out.decode().strip()
+        text = out.decode("utf-8", "replace")
+        phrase = text.strip()
+        # standard output is the phrase and nothing else: one line of L lower-case words separated by single spaces
+        if not text.endswith("\n") or text.count("\n") != 1 or any(not w.isascii() or not w.isalpha() or not w.islower() for w in text[:-1].split(" ")):
+            return job, "standard output is not one line holding a phrase: %r" % text[:300], phrase
         k2, out2, _, _ = core.cli_exec(["address", "--mnemonic", phrase] + as_)
         addr = out2.decode().strip()
         if k2 != "ok":
